@@ -230,7 +230,7 @@ def run(ctx, replay=None, selftest=False):
         raise core.Machinery('lstsq menu must contain both full-rank and rank-deficient cases')
     # Clenshaw sums (j = 0): machine law + conformance
     c, d = cl_cfg(False, ctx.tier, maxj=0, svecs=SVECS)
-    ctx.tlc('Clenshaw', c, defs=d, name='clenshaw-sum-laws', emit=False, require_actions=('Step',))
+    ctx.tlc('Clenshaw', c, defs=d, name='clenshaw-sum-laws', emit=False, coverage=False)
     c, d = cl_cfg(True, ctx.tier, maxj=0, svecs=SVECS)
     rc = ctx.tlc('Clenshaw', c, defs=d, name='clenshaw-sum:emit', coverage=False, count=False)
     for rec in rc.records:
